@@ -6,7 +6,7 @@
    correspondence run (identity ledger on both sides, clone at every step, every later order). *)
 From Coq Require Import ZArith List Bool Lia.
 From MV Require Import Ast Eval Scalar Machine.
-From MV.Proofs Require Import Arith Logic Prim View OpsLocal Guards Grow CapHistory.
+From MV.Proofs Require Import Arith Logic Prim View OpsLocal Guards Grow CapHistory Core Refine Clone.
 Import ListNotations.
 Open Scope Z_scope.
 
@@ -47,3 +47,31 @@ Qed.
 
 Print Assumptions C12_allocation_touches_nothing_else.
 Print Assumptions C12_growing_one_vector_touches_no_other.
+
+(* ---- Clone for MiniVec is deep and independent (element level) ----
+   From EVERY source state (never allocated, empty, full, spare capacity, over-aligned: `vabs`), with
+   the clone's name fresh: the source is untouched (same block, same elements, same ledger); the
+   clone holds length-many NEW elements -- the consecutive identities created by this call, i.e.
+   T::clone ran once per source element, in order -- whose payloads are the sources'; the two vectors
+   live in different blocks; no element that existed before is touched.  The only panic (capacity
+   overflow; no element's clone panics here) leaves the source intact. *)
+Theorem C12_clone_is_deep_and_independent :
+  forall cfg ncap, cfg_ok cfg -> policy_ok ncap -> needs_drop cfg = true ->
+  forall s v w l,
+  vabs cfg s v l -> v <> w -> (forall e, In e l -> mem e (clone_panics s) = false) ->
+  post (clone_vec cfg ncap v w s)
+    (fun _ s' =>
+       vabs cfg s' v l /\ vabs cfg s' w (zseq (next_elem s) (List.length l)) /\
+       (forall j, (j < List.length l)%nat -> payload s' (next_elem s + Z.of_nat j) = payload s (nth j l 0)) /\
+       (forall e, e < next_elem s -> ledger s' e = ledger s e /\ payload s' e = payload s e) /\
+       next_elem s' = next_elem s + Z.of_nat (List.length l) /\
+       (forall b1 bl1 b2 bl2, vec_at s' v b1 bl1 -> vec_at s' w b2 bl2 -> b1 <> b2))
+    (fun s' => vabs cfg s' v l).
+Proof. exact clone_vec_spec. Qed.
+
+(* zseq a n = [a; a+1; ...; a+n-1] *)
+Theorem C12_zseq_is_consecutive :
+  forall a n x, In x (zseq a n) <-> a <= x < a + Z.of_nat n.
+Proof. exact zseq_in. Qed.
+
+Print Assumptions C12_clone_is_deep_and_independent.
